@@ -55,7 +55,10 @@ RULE = (
     "over-printed lines, random glyph soups; LAParams dyadic (plus the defaults); each arrangement analysed at scale "
     "2^k for k in a tier-dependent subset of -8..8 (all 17 in thorough for the direct route). distinct = distinct "
     "(glyph boxes, page, LAParams, route); non-trivial = at least one glyph pair or line pair whose outcome the "
-    "documentation decides. form: 8 families x the same glyph boxes drawn through a form XObject whose /Matrix "
+    "documentation decides. col3: a tall box on the left, a heading and a wide note (sometimes a middle box) on the "
+    "right with the same top and bottom, all content orders of the boxes (left box first for boxes_flow < 1, right "
+    "boxes top to bottom for boxes_flow > -1; counted separately where the left box is nearest to the heading and "
+    "the right boxes come first in the content). form: 8 families x the same glyph boxes drawn through a form XObject whose /Matrix "
     "(scale 1/2..4 + translation) does not commute with the cm at Do (scale, translation > 2 page sizes), "
     "all_texts=True, compared with the page twin, with the documented grouping, the figure box and 2 further scales "
     "applied through the cm alone. tool: tools/pdf2txt.py run on such PDFs (a quarter through a form) with every "
@@ -93,9 +96,10 @@ FAM_SHARDS = {
     "*": ((3, 400), (8, 1100)),
     "col2": ((6, 200), (16, 560)),
     "col1": ((4, 300), (12, 750)),
+    "col3": ((3, 300), (10, 600)),
     "vstack": ((4, 300), (12, 750)),
 }
-RANDOM_FAMS = ["row", "multirow", "vrow", "stack", "vstack", "col1", "col2", "overprint", "grid", "soup"]
+RANDOM_FAMS = ["row", "multirow", "vrow", "stack", "vstack", "col1", "col2", "col3", "overprint", "grid", "soup"]
 
 
 def minimums(tier: str) -> Dict[str, int]:
@@ -113,6 +117,8 @@ def minimums(tier: str) -> Dict[str, int]:
             "near:line_margin_gap:below": 1800, "near:line_margin_gap:on": 2200, "near:line_margin_gap:above": 1100,
             "near:align:below": 130, "near:align:above": 110, "near:height:below": 70, "near:height:above": 65,
             "vertical_lines_seen": 3600, "multi_cell_pages": 20000, "seen:families": 21, "seen:boxes_flow": 7,
+            "order:box_beside_column": 450, "col3:left_box_nearest_to_heading": 300,
+            "col3:right_column_first_in_content": 100,
             "form_cases": 560, "form_vs_page_compared": 500, "form_cases_with_multiline_box": 200,
             "form:box_partitions_asserted": 250, "tool_runs": 380, "tool_flag_matters:lo": 40,
             "tool_flag_matters:cm": 65, "tool_flag_matters:lm": 100, "tool_flag_matters:wm": 35,
@@ -130,6 +136,8 @@ def minimums(tier: str) -> Dict[str, int]:
         "near:line_margin_gap:below": 10000, "near:line_margin_gap:on": 13000, "near:line_margin_gap:above": 6600,
         "near:align:below": 850, "near:align:above": 700, "near:height:below": 520, "near:height:above": 450,
         "vertical_lines_seen": 23000, "multi_cell_pages": 250000, "seen:families": 25, "seen:boxes_flow": 7,
+        "order:box_beside_column": 3300, "col3:left_box_nearest_to_heading": 2100,
+        "col3:right_column_first_in_content": 700,
         "form_cases": 3200, "form_vs_page_compared": 3000, "form_cases_with_multiline_box": 1100,
         "form:box_partitions_asserted": 1400, "tool_runs": 2300, "tool_flag_matters:lo": 240,
         "tool_flag_matters:cm": 380, "tool_flag_matters:lm": 590, "tool_flag_matters:wm": 220,
@@ -646,6 +654,24 @@ def check_documented(case: Dict[str, Any], t: Tree, stats: Dict[str, int]) -> Li
         bb = [R.union([gl[i] for ln in b["lines"] for i in ln["chars"]]) for b in t.boxes]
         cls, cons = R.order_constraints(bb, bf)
         bump("layout:" + cls)
+        if cls == "box_beside_column" and cons:
+            # the cases in which the "anything between the two?" query decides the reading order: the left box is
+            # nearest (by area) to the top right box, and both right boxes precede the left box in the content
+            def area_between(u, v):
+                w = max(u[2], v[2]) - min(u[0], v[0])
+                hh = max(u[3], v[3]) - min(u[1], v[1])
+                return w * hh - (u[2] - u[0]) * (u[3] - u[1]) - (v[2] - v[0]) * (v[3] - v[1])
+
+            li = min(range(len(bb)), key=lambda i: bb[i][0])
+            rs = sorted((i for i in range(len(bb)) if i != li), key=lambda i: -bb[i][3])
+            d_xy = area_between(bb[li], bb[rs[0]])
+            others = [area_between(bb[i], bb[j]) for i in range(len(bb)) for j in range(i + 1, len(bb))
+                      if {i, j} != {li, rs[0]}]
+            first = [min(i for ln in b["lines"] for i in ln["chars"]) for b in t.boxes]
+            if d_xy < min(others):
+                bump("col3:left_box_nearest_to_heading")
+                if all(first[r] < first[li] for r in rs):
+                    bump("col3:right_column_first_in_content")
         if cons:
             bump("order:" + cls)
             bump("order_constraints_checked", len(cons))
